@@ -198,7 +198,9 @@ def r3_r5(ctx, F, hub):
             short = c.split('::')[-1]
             if c.endswith('rename') and classes == ['staging', 'live']:
                 # publishing rename (dst exactly the live path) vs conflict-copy rename (live path + suffix)
-                pure_live = not any(o.kind == 'mutcall' for _, o in hub.deep_origins(b, mt['args'][1], mut_calls=True))
+                # (a suffix pushed onto the name - inline or inside a crate-local naming helper - makes it a derived name)
+                pure_live = not any(o.kind == 'mutcall' for _, o in hub.deep_origins(b, mt['args'][1], mut_calls=True)) and \
+                    not path_shape(F, fl, mt['args'][1])[1]
                 if pure_live:
                     ctx.check(bool(commit_e) and cfg.edges_guard(commit_e, mb), 'C03.R3', '%s:publish-on-Commit' % handler, 'rename(tmp, dst) on the Commit edge',
                               'the publishing rename is reachable without cas_decide == Commit (stale write overwrites the live file)', term_loc(b, mb))
